@@ -28,7 +28,8 @@ def read_handshake(io, timeout=5.0):
                                 '%r (payload %s)' % (e, bytes(payload[:24]).hex()))
 
 
-def status_exchange(io, status_obj, raw_json=None, answer_ping=True):
+def status_exchange(io, status_obj, raw_json=None, answer_ping=True,
+                    before_pong=None):
     """Serve a status request (and ping).  Returns dict of what was seen."""
     seen = {'request': False, 'ping': None}
     f = io.recv_frame()
@@ -46,6 +47,8 @@ def status_exchange(io, status_obj, raw_json=None, answer_ping=True):
     pid, payload, _ = f
     if pid == 1 and len(payload) == 8:
         seen['ping'] = payload
+        if before_pong is not None:
+            before_pong()
         if answer_ping:
             io.send_frame(0x01, payload)
     else:
